@@ -152,6 +152,18 @@ def must_check(rep, model):
         else:
             rep.violation('MUST-CHECK-REL', f'{fname}(start, stop)', site, expected='start in (0, stop) and stop in (start, inf)',
                           found=sorted((T.show(a), T.show(b), T.show(c)) for a, b, c in got))
+        for label, bound, want1 in (('stop omitted', {'start': s, 'stop': NONE}, {(s, C(0), INF)}), ('start omitted', {'start': NONE, 'stop': e_}, {(e_, C(0), INF)})):
+            ctx = SE.Ctx(model)
+            ctx.inline = False
+            E.run(model, fn.qual, bound, ctx=ctx)
+            got1 = {(e['args'][0], T.index(e['args'][2], C(0)), T.index(e['args'][2], C(1))) for e in ctx.trace
+                    if e['name'] == 'check_param_range' and len(e['args']) == 3 and e['guard'] == T.TRUE and e['args'][0] in (s, e_)}
+            # limit_df replaces an omitted start by 0 before checking: the check on 0 is vacuous and not required
+            if want1 <= got1 and not (got1 - want1):
+                rep.ok('MUST-CHECK-REL', f'{fname}({label})', site, found='the given limit is checked against (0, inf)')
+            else:
+                rep.violation('MUST-CHECK-REL', f'{fname}({label})', site, expected=sorted((T.show(a), T.show(b), T.show(c)) for a, b, c in want1),
+                              found=sorted((T.show(a), T.show(b), T.show(c)) for a, b, c in got1))
 
 
 def options(rep, model):
